@@ -796,7 +796,12 @@ class NetCDFWrite(IOWrite):
         """Write a count variable to the netCDF file."""
         g = self.write_vars
 
-        if not self._already_in_file(count_variable):
+        # A count variable that spans an existing dimension (the
+        # instance dimension of the data) can only be shared with a
+        # count variable that spans the same dimension
+        ncdims = None if create_ncdim else (ncdim,)
+
+        if not self._already_in_file(count_variable, ncdims=ncdims):
             ncvar = self._create_netcdf_variable_name(
                 count_variable, default="count"
             )
